@@ -2,7 +2,10 @@ use crate::bases::*;
 use std::borrow::Cow;
 use std::io::Read;
 use std::mem::ManuallyDrop;
+#[cfg(not(jubako_verif_shuttle))]
 use std::sync::{Arc, Condvar, Mutex, OnceLock};
+#[cfg(jubako_verif_shuttle)]
+use crate::verif::sync::{Arc, Condvar, Mutex, OnceLock};
 
 /*
 SyncVec is mostly a Arc<Vec<u8>> where the only protected part is its length
@@ -71,6 +74,8 @@ impl SyncVecRd {
     #[inline]
     fn slice(&self) -> &[u8] {
         let size = self.current_size();
+        #[cfg(jubako_verif)]
+        crate::verif::point("dec_slice", self.buffer as u64, size as u64);
         unsafe { std::slice::from_raw_parts(self.buffer, size) }
     }
 }
@@ -106,6 +111,8 @@ fn decode_to_end<T: Read + Send>(
     mut buffer: SyncVecWr,
     chunk_size: usize,
 ) -> std::io::Result<()> {
+    #[cfg(jubako_verif)]
+    let chunk_size = crate::verif::knob("decode_chunk", chunk_size).max(1);
     let total_size = buffer.total_size;
     let mut uncompressed = 0;
     //println!("Decompressing to {total_size}");
@@ -117,10 +124,14 @@ fn decode_to_end<T: Read + Send>(
             .by_ref()
             .take(size as u64)
             .read_to_end(&mut buffer.data)?;
+        #[cfg(jubako_verif)]
+        crate::verif::point("dec_written", buffer.data.as_ptr() as u64, uncompressed as u64);
         let (lock, cvar) = &*buffer.decoded;
         let mut decoded = lock.lock().unwrap();
         *decoded = uncompressed;
         cvar.notify_all();
+        #[cfg(jubako_verif)]
+        crate::verif::probe("dec_publish", buffer.data.as_ptr() as u64, uncompressed as u64);
     }
     //println!("Decompress done");
     Ok(())
@@ -130,6 +141,11 @@ impl SeekableDecoder {
     pub fn new<T: Read + Send + 'static>(decoder: T, size: ASize) -> Self {
         let (write_hand, read_hand) = create_sync_vec(size.into_usize());
 
+        #[cfg(jubako_verif_shuttle)]
+        crate::verif::pool::spawn(move || {
+            decode_to_end(decoder, write_hand, 4 * 1024).unwrap();
+        });
+        #[cfg(not(jubako_verif_shuttle))]
         DECOMPRESSION_POOL
             .get_or_init(|| {
                 rayon::ThreadPoolBuilder::new()
@@ -146,6 +162,8 @@ impl SeekableDecoder {
 
     #[inline]
     pub fn decode_to(&self, end: usize) {
+        #[cfg(jubako_verif)]
+        crate::verif::point("dec_wait", self.buffer.buffer as u64, end as u64);
         self.buffer.wait_while(|d: &mut usize| *d < end);
     }
 
